@@ -471,8 +471,9 @@ func (ex *Exec) execInstr(fr *Frame, st *State, in ssa.Instruction) {
 		fr.regs[in] = ex.execSelect(fr, st, in)
 
 	case *ssa.Send:
-		ex.eval(fr, st, in.Chan)
-		ex.eval(fr, st, in.X)
+		ch := ex.eval(fr, st, in.Chan)
+		xv := ex.eval(fr, st, in.X)
+		ex.atObligations(fr, st, "send", in, map[string]*Value{"$0": ch, "$1": xv})
 		// channel send: no sequential effect modelled (ghost queues are handled by contracts)
 
 	default:
